@@ -18,8 +18,10 @@ Modelling decisions
     `Publisher collision` check of `register` (same proxy object twice) is unreachable and not modelled;
   * recursion of `_collapse` through chains of futures carries fuel (`nodes.length + 1` is enough for every
     acyclic registration structure; on a registration cycle Python raises `RecursionError`, the model `Err.recursion`);
-  * not modelled: `__del__`-driven registry cleanup (all nodes stay alive), `Node.__eq__/__hash__`
-    Future/Worker aliasing inside `set`s (identity is used), the `assert 0 <= index < szout`.
+  * `Node.__eq__/__hash__` Future/Worker aliasing is modelled where the tracing code compares nodes
+    (`eqNode`, `memNode`); the keys of `_PORTS` are workers only (a Future never gets an entry through the
+    modelled calls), so identity is used there;
+  * not modelled: `__del__`-driven registry cleanup (all nodes stay alive), the `assert 0 <= index < szout`.
 
 Core Lean only.
 -/
@@ -225,7 +227,12 @@ def publish (g : G) (p pi : Nat) (s : Sub) : G × Res :=
       let g1 := { g with ports := g.ports ++ [s] }
       match publishTo (fuelOf g) g1 p pi s with
       | (g2, .err e) => ({ g2 with ports := g2.ports.filter (· ≠ s) }, .err e)
-      | r => r
+      | (g2, r) =>
+        -- `Port.add` keeps the *old* key when an equal subscription is already held; if the new object was
+        -- stored nowhere it dies on return and `Subscription.__del__` discards the port again (this needs a
+        -- dangling equal subscription, i.e. a state left behind by a non-atomic failure)
+        if (g2.edges.filter (·.sub = s)).length = (g.edges.filter (·.sub = s)).length
+        then ({ g2 with ports := g2.ports.filter (· ≠ s) }, r) else (g2, r)
 
 /-! ### atomic.py : construction calls -/
 
@@ -265,6 +272,29 @@ def train (g : G) (n tp ti lp li : Nat) : G × Res :=
 
 /-! ### span.py : tracing -/
 
+/-- `Node.output` as a tuple of tuples -/
+def outputs (g : G) (n : Nat) : List (List Sub) :=
+  (List.range (g.nodes.getD n default).szout).map (out g n)
+
+/-- `Node.__eq__`: identity, except that a `Future` and a `Worker` are equal when they have the same
+(non-zero) number of output ports holding equal subscriptions (`any(self._output)` is a tuple of `Port`
+objects, i.e. true iff `szout > 0`). -/
+def eqNode (g : G) (a b : Nat) : Bool :=
+  a == b ||
+    ((isWorker g a && isFuture g b || isFuture g a && isWorker g b) &&
+      (g.nodes.getD a default).szout == (g.nodes.getD b default).szout &&
+      (g.nodes.getD a default).szout != 0 && outputs g a == outputs g b)
+
+/-- `node in <set of nodes>`: `Node.__hash__` = `hash(szin) ^ hash(szout)`, then `__eq__` -/
+def memNode (g : G) (n : Nat) (ms : List Nat) : Bool :=
+  ms.any (fun m => m == n ||
+    ((g.nodes.getD m default).szin == (g.nodes.getD n default).szin && eqNode g m n))
+
+/-- first occurrences only (the local `seen` set of `Traversal.subscribers`) -/
+def dedupNodes (g : G) : List Nat → List Nat → List Nat
+  | [], acc => acc.reverse
+  | n :: ns, acc => if memNode g n acc then dedupNodes g ns acc else dedupNodes g ns (n :: acc)
+
 /-- `Future.subscribed(publisher)` / `Worker.subscribed(publisher)` -/
 def subscribed : Nat → G → Nat → Nat → Bool
   | 0, _, _, _ => false
@@ -276,11 +306,11 @@ def subscribed : Nat → G → Nat → Nat → Bool
 /-- nodes yielded by `Traversal(pivot).mappers(*extras)` before the `members` check: subscribers of all
 output ports in order, then the extras that are `subscribed`, first occurrences only, trained workers masked -/
 def mappers (g : G) (pivot : Nat) (extra : Option Nat) : List Nat :=
-  let direct := (g.edges.filter (fun e => e.pub = pivot)).map (·.sub.node)
+  let direct := (outputs g pivot).flatten.map (·.node)
   let ext := match extra with
     | some e => if subscribed (fuelOf g) g e pivot then [e] else []
     | none => []
-  ((direct ++ ext).eraseDups).filter (fun n => !(isWorker g n && trained g n))
+  dedupNodes g ((direct ++ ext).filter (fun n => !(isWorker g n && trained g n))) []
 
 inductive Found where
   | found | notFound | cyclic | depth
@@ -290,10 +320,10 @@ inductive Found where
 def existsT : Nat → G → Nat → Nat → List Nat → Found
   | 0, _, _, _, _ => .depth
   | fuel + 1, g, expected, pivot, members =>
-    if pivot = expected then .found
+    if eqNode g pivot expected then .found
     else (mappers g pivot (some expected)).foldl
       (fun acc n => match acc with
-        | .notFound => if n ∈ members then .cyclic else existsT fuel g expected n (n :: members)
+        | .notFound => if memNode g n members then .cyclic else existsT fuel g expected n (n :: members)
         | r => r)
       .notFound
 
@@ -304,7 +334,7 @@ def scan : Nat → G → Nat → List Nat → Except Err (List (List Nat))
     match (mappers g pivot none).foldl
       (fun (acc : Except Err (List (List Nat))) n => match acc with
         | .ok ls =>
-          if n ∈ members then .error .cyclic
+          if memNode g n members then .error .cyclic
           else match scan fuel g n (n :: members) with
             | .ok ls' => .ok (ls ++ ls')
             | .error e => .error e
@@ -345,12 +375,12 @@ def visit : Nat → G → Nat → Nat → List Nat → List Nat
   | 0, _, _, _, seen => seen
   | fuel + 1, g, tail, pivot, seen =>
     let seen := seen ++ [pivot]
-    let direct := ((g.edges.filter (fun e => e.pub = pivot)).map (·.sub.node)).eraseDups
+    let direct := (outputs g pivot).flatten.map (·.node)
     let ext := if subscribed (fuelOf g) g tail pivot then [tail] else []
     (direct ++ ext).foldl
       (fun seen n =>
-        if n ∈ seen then seen
-        else if pivot = tail && !(isWorker g n && trained g n) then seen
+        if memNode g n seen then seen
+        else if eqNode g pivot tail && !(isWorker g n && trained g n) then seen
         else visit fuel g tail n seen)
       seen
 
@@ -359,7 +389,7 @@ def validate (g : G) (h : Nat) (t : Option Nat) : Res :=
   match segment g h t with
   | .node tl =>
     let seen := visit (g.nodes.length * g.nodes.length + 1) g tl h []
-    if seen.any (fun n => isFuture g n && n ≠ tl) then .err .futures else .node tl
+    if seen.any (fun n => isFuture g n && !eqNode g n tl) then .err .futures else .node tl
   | r => r
 
 /-! ### the state machine -/
